@@ -152,9 +152,16 @@ def check_sigma(prog: Program, res: Result) -> None:
                    sample={"sigma_arg": norm(sg) if sg is not None else None, "grid_stride": norm(stride) if stride is not None else None})
             yv = b.get("yv")
             if gc is not None:
-                st = enclosing_stmt(gc)
-                names = [norm(e) for e in st.targets[0].elts]
-                res.ob(R, names == [norm(xv), norm(yv)], fi.qualname, "grid unpacked as (xv, yv) and passed as (xv, yv)",
+                # which element of the pair returned by make_grid_vectors each argument is (also through grid = f(); xv, yv = grid)
+                st2 = enclosing_stmt(c)
+
+                def _elem(a_):
+                    rd_ = astq.reaching_def(fi.node, a_.id, st2, unpack_calls=True) if isinstance(a_, ast.Name) else None
+                    v_ = rd_.value if rd_ is not None else None
+                    return astq.const_value(v_.slice) if isinstance(v_, ast.Subscript) and v_.value is gc else None
+
+                names = [_elem(xv), _elem(yv)]
+                res.ob(R, names == [0, 1], fi.qualname, "grid unpacked as (xv, yv) and passed as (xv, yv)",
                        f"make_grid_vectors returns (xv, yv) but it is unpacked/passed as {names} -> ({norm(xv)}, {norm(yv)}): x and y are swapped", f"{fi.module.relpath}:{c.lineno}")
     res.ob(R, n_sites == 5, f"{CM}", "five producer call sites", f"{n_sites} call sites of make_confmaps/make_multi_confmaps (5 confirmed by hand)", "")
     # dataset-level call sites: sigma and output_stride from the same head config
